@@ -97,7 +97,8 @@ class EngineCheck(PropertyCheck):
             for _ in range(m):
                 o = dict(opts)
                 nk = 4 + rng.below(9 if not ctx.thorough else 14)
-                rules = E.gen_program(rng, nk, cyclic=o.pop("cyclic", False), malformed=o.pop("malformed", False))
+                rules = E.gen_program(rng, nk, cyclic=o.pop("cyclic", False), malformed=o.pop("malformed", False),
+                                      mustfollow=o.pop("mustfollow", bias))
                 nops = 2 + rng.below(8 if not ctx.thorough else 16)
                 if bias:
                     o.setdefault("cancel", True)
